@@ -123,6 +123,10 @@ def gen_reorder(rng):
     return reorder_case(kinds, ev)
 
 
+def notifying_case(prefix):
+    return [34, list(prefix) + fair(2, 10)]
+
+
 def await_fresh_case(kinds, prefix):
     c = await_case(kinds, prefix)
     c[0] = 31
@@ -268,6 +272,9 @@ def generate(rng, tier):
                     yield dict(case=reorder_case(kinds, ev), kind="await-reorder", compare=False)
     for _ in range(6000 if thorough else 1200):
         yield dict(case=gen_reorder(rng), kind="await-reorder", compare=False)
+    # ---- 34. a source write while the value's task is inside notify_subs (state Notifying)
+    for sch in interleavings([6, 1]):
+        yield dict(case=notifying_case(sch), kind="write-during-notifying", compare=False)
     for sch in interleavings([5, 5]):
         yield dict(case=memo_chain_case([[[0, 2]], [[2]]], sch), kind="memo-chain", compare=False)
     allsch = list(interleavings([10, 5]))
@@ -330,6 +337,8 @@ def valid_case(item):
         if op in (23, 32):
             c3 = [3] + list(c[1:])
             return valid_case(dict(case=c3))
+        if op == 34:
+            return len(c) == 2 and all(t in (0, 1) for t in c[1]) and c[1][-20:] == fair(2, 10) and c[1].count(1) >= 1
         if op == 33:
             n = len(c[1])
             return len(c) == 3 and 2 <= n <= 3 and all(k in (0, 1, 2) for k in c[1]) and \
@@ -401,6 +410,16 @@ def oracle(item, impl):
             return "final signal value %d is not the last write of any thread" % fin
         if not log or log[-1] != fin:
             return "the notified effect did not run after the last write (last saw %r, signal is %d)" % (log[-1:], fin)
+        return None
+    if op == 34:
+        started, fin, sv, hang = impl
+        if hang:
+            return "a thread is blocked forever (write during notify_subs)"
+        if sv != 1:
+            return "the source write did not finish within the bounded extra steps"
+        if started != 2 or fin != 20:
+            return ("the async derived value never reloaded after its source was written: %d load(s), value %d "
+                    "(source write ignored while the state was Notifying)" % (started, fin))
         return None
     if op == 33:
         aw, fin, started = impl
@@ -576,11 +595,19 @@ def classify(item, impl, model):
     """open known findings; the class must also be exhibited by the model on this very schedule
     (KnownClass of the Coq statements), otherwise the failure is reported as a violation"""
     c = item["case"]
-    if isinstance(impl, str) or (isinstance(model, str) and c[0] not in (9, 27)):
+    if isinstance(impl, str) or (isinstance(model, str) and c[0] not in (9, 27, 34)):
         return None
     msg = oracle(item, impl) or ""
     if c[0] == 4 and "mid-notification read" in msg and oracle(item, model) and "mid-notification read" in oracle(item, model):
         return "F-C19-b"
+    if c[0] == 34 and "ignored while the state was Notifying" in msg:
+        # KnownClass from the schedule alone: the write falls after the 3rd slot of the value's task (it stands at
+        # "ad:before_drain", state = Notifying) and before its 4th
+        sch = c[1]
+        first1 = sch.index(1) if 1 in sch else -1
+        if first1 >= 0 and sch[:first1].count(0) == 3:
+            return "F-C19-h"
+        return None
     if c[0] == 27 and "non-blocking try_write" in msg and c[1] in (0, 1):
         # KnownClass, computed from the schedule alone: thread 1's operation falls between thread 0
         # taking its guard (its 1st slot) and releasing it (its 2nd slot)
@@ -614,15 +641,16 @@ def nontrivial(item, model):
         c = [3] + list(c[1:])
     if c[0] == 31:
         c = [1] + list(c[1:])
-    n = {16: lambda: 2, 17: lambda: 2, 18: lambda: 2, 27: lambda: 2, 29: lambda: 2, 30: lambda: 2, 1: lambda: len(c[1]) + 1, 2: lambda: len(c[2]) + 1, 3: lambda: len(c[1]), 4: lambda: 2, 5: lambda: 2,
+    n = {34: lambda: 2, 16: lambda: 2, 17: lambda: 2, 18: lambda: 2, 27: lambda: 2, 29: lambda: 2, 30: lambda: 2, 1: lambda: len(c[1]) + 1, 2: lambda: len(c[2]) + 1, 3: lambda: len(c[1]), 4: lambda: 2, 5: lambda: 2,
          7: lambda: 2, 10: lambda: 2, 11: lambda: 2}[c[0]]()
-    tail = n * (14 if c[0] in (5, 11) else 3 if c[0] == 7 else 6 if c[0] == 16 else 4 if c[0] in (17, 18) else 3 if c[0] == 27 else 8 if c[0] == 29 else 6 if c[0] == 30 else FAIR_ROUNDS)
+    tail = n * (14 if c[0] in (5, 11) else 3 if c[0] == 7 else 6 if c[0] == 16 else 4 if c[0] in (17, 18) else 3 if c[0] == 27 else 8 if c[0] == 29 else 10 if c[0] == 34 else 6 if c[0] == 30 else FAIR_ROUNDS)
     pre = sched[:-tail] if tail else sched
     switches = sum(1 for a, b in zip(pre, pre[1:]) if a != b)
     return switches >= 2
 
 
-NAMES = {33: "N awaiters re-polled in another order around reloads (hand-driven)",
+NAMES = {34: "source write during notify_subs (Notifying window)",
+         33: "N awaiters re-polled in another order around reloads (hand-driven)",
          31: "await path, fresh future and waker per poll", 32: "memo -> memo chain across threads",
          23: "signal writes / memo pulls through arena handles", 27: "non-blocking try_write of a signal",
          29: "awaiter vs the start of a reload", 30: "effect disposed while its task is polled",
@@ -690,8 +718,8 @@ LEVEL_TEXT = ("Coq proofs about executable protocol models transcribed from the 
               "machine-checked witness schedules for the code before the fixes and for the open design limitations; tied to /repo by "
               "running REAL threads through every enumerated interleaving of the named yield points and comparing the outcome of each "
               "interleaving with the extracted model, plus a model-independent oracle.")
-LEVEL_NOTE = ("Scenarios 27, 29, 30, 32, 33 (try_write, awaiter vs reload start, effect disposal, memo chain, N awaiters re-polled "
-              "in another order around reloads) are judged by the oracle only, not compared with a model. Partial: protocol models under sequential consistency (no weak memory, no OS scheduling, no lock fairness); granularity = "
+LEVEL_NOTE = ("Scenarios 27, 29, 30, 32, 33, 34 (try_write, awaiter vs reload start, effect disposal, memo chain, N awaiters re-polled "
+              "in another order around reloads, source write in the Notifying window; F-C19-h has no Coq statement) are judged by the oracle only, not compared with a model. Partial: protocol models under sequential consistency (no weak memory, no OS scheduling, no lock fairness); granularity = "
               "instrumented yield points; lock traces hand-mirrored; memo recomputation and the write's mark loop are not atomic across "
               "threads (F-C19-b, F-C19-d, F-C19-e listed as open design limitations).")
 TECHNIQUE = ("Coq proof (invariants over all schedules) of protocol models + exhaustive enumeration of interleavings on real threads "
